@@ -252,8 +252,8 @@ pub fn compress(ic: u8, data: &[u8]) -> Result<Vec<u8>, String> {
 }
 
 /// `strength` selects encoder parameters another writer might use: 0 = defaults; otherwise gzip
-/// level 1 / 9, brotli quality 1 with a small window / quality 9 with a 2^24 window, zstd level
-/// 1 / 19 / 22 (high zstd levels announce large windows in the frame header).
+/// level 1 / 9, brotli quality 1 with a small window / quality 5 with a 2^24 window, zstd level 1
+/// with a declared window of 2^23 / 2^27 (what high zstd levels announce in the frame header).
 pub fn compress_with(ic: u8, data: &[u8], strength: u8) -> Result<Vec<u8>, String> {
     if strength != 0 {
         match ic {
@@ -264,7 +264,7 @@ pub fn compress_with(ic: u8, data: &[u8], strength: u8) -> Result<Vec<u8>, Strin
                 return e.finish().map_err(|e| e.to_string());
             }
             3 => {
-                let (q, w) = if strength % 2 == 1 { (1, 10) } else { (9, 24) };
+                let (q, w) = if strength % 2 == 1 { (1, 10) } else { (5, 24) };
                 let mut out = Vec::new();
                 {
                     let mut wr = brotli::CompressorWriter::new(&mut out, 4096, q, w);
@@ -274,12 +274,19 @@ pub fn compress_with(ic: u8, data: &[u8], strength: u8) -> Result<Vec<u8>, Strin
                 return Ok(out);
             }
             4 => {
-                let lvl = match strength % 3 {
-                    0 => 1,
-                    1 => 19,
-                    _ => 22,
+                // a large declared window is what high compression levels put into the frame
+                // header; setting it directly at a low level costs nothing
+                let wlog = match strength % 3 {
+                    0 => 0,
+                    1 => 23,
+                    _ => 27,
                 };
-                return zstd::stream::encode_all(data, lvl).map_err(|e| e.to_string());
+                let mut e = zstd::stream::Encoder::new(Vec::new(), 1).map_err(|e| e.to_string())?;
+                if wlog != 0 {
+                    e.window_log(wlog).map_err(|e| e.to_string())?;
+                }
+                e.write_all(data).map_err(|e| e.to_string())?;
+                return e.finish().map_err(|e| e.to_string());
             }
             _ => {}
         }
